@@ -632,21 +632,21 @@ pub fn run(ctx: &Ctx) -> &'static str {
     ctx.explore(
         "lines",
         "single lines on a fresh configuration: requests from a grammar (every method x well-typed / ill-typed / missing / extra / extreme params x id absent/int/string/object/array/big/float/bool/null x version 2.0/other/absent/non-string, key order and whitespace varied), JSON of any shape, arbitrary bytes as lossy UTF-8, truncated and byte-mutated requests; totality, well-formedness, predicted outcome, effect on the snapshot; non-trivial = the line parses as JSON",
-        ctx.tier.pick(60_000, 1_500_000),
+        ctx.tier.pick(200_000, 2_000_000),
         || any_line().prop_map(|l| History { lines: vec![l] }),
         |_| check_history,
     );
     ctx.explore(
         "histories",
         "sequences of 1..60 such lines against a 6-field configuration model: after every line the snapshot and the next get_status show the model; timeout always within 1000..60000",
-        ctx.tier.pick(4_000, 80_000),
+        ctx.tier.pick(12_000, 120_000),
         || history_strategy(60),
         |_| check_history,
     );
     ctx.explore(
         "two-entry-points",
         "every generated line that is not a subscription method is dispatched through dispatch(), dispatch_async() without and with a subscription context, each on its own configuration that saw the same history: equal JSON answers and equal configurations",
-        ctx.tier.pick(4_000, 80_000),
+        ctx.tier.pick(12_000, 120_000),
         || history_strategy(30),
         |_| check_two_entry_points,
     );
